@@ -390,10 +390,37 @@ func c08TypeLeaves(e *E, want string, vals *[]int64) (string, bool) {
 	return res, true
 }
 
+// c08EveryPosition: a handful of expressions whose value is a string of blanks, a large integer or
+// a tiny difference, in every position (a position that normalises its operand shows here).
+func c08EveryPosition(t *testing.T, r *Rec) {
+	exprs := []struct {
+		e   *E
+		typ string
+	}{{Str(" "), "str"}, {Str("  "), "str"}, {Bin("~", Str(" "), Str(" ")), "str"}, {Cond(Var("t"), Str("  "), Str("")), "str"}, {Idx(List(Str(" "), Str("x")), Int(0)), "str"},
+		{Filt(Str(" x "), "upper"), "str"}, {Bin("~", Str("a  b"), Int(1)), "str"}, {Bin("+", Int(2000000000), Int(1)), "int"}, {Bin("==", Int(2000000000), Int(2000000001)), "bool"},
+		{Bin("!=", Bin("+", Int(1<<40), Int(1)), Int(1<<40)), "bool"}, {Str("0"), "str"}, {Str("false"), "str"}}
+	var ctx Ctx
+	ctx.Set("t", Bool(true))
+	ctx.Set("nul", Null())
+	for ei, ex := range exprs {
+		for pos := range c08PosNames {
+			c := C08Case{Ctx: ctx, Expr: ex.e, Typ: ex.typ, Pos: pos}
+			if !c08InDomain(c) {
+				continue
+			}
+			r.Case(fmt.Sprint("everypos", ei, pos), true, PrintE(ex.e, PrintOpts{})+" @"+c08PosNames[pos], "every-position")
+			if err := checkC08(c); err != nil {
+				r.FailEnumKey(t, "C08.expr", fmt.Sprint(ei), c, err)
+			}
+		}
+	}
+}
+
 func TestC08Triples(t *testing.T) {
-	r := NewRec(t, "C08", "exhaustive: every triple of the 12 representative binary operators (all 6 precedence levels) over 4 operands in all 5 tree shapes, operands typed as the operators require, 3 operand value sets; each tree printed with the fewest parentheses the table permits and fully parenthesised; non-trivial = the tree mixes two precedence levels; shapes that cannot be typed inside the property's operand domain are excluded and counted")
+	r := NewRec(t, "C08", "exhaustive: 12 expressions whose value is a string of blanks, '0', 'false', a large integer or a comparison of neighbouring large integers, in each of the 20 positions; every triple of the 12 representative binary operators (all 6 precedence levels) over 4 operands in all 5 tree shapes, operands typed as the operators require, 3 operand value sets; each tree printed with the fewest parentheses the table permits and fully parenthesised; non-trivial = the tree mixes two precedence levels; shapes that cannot be typed inside the property's operand domain are excluded and counted")
 	defer r.Flush()
 	r.SetExhaustive()
+	c08EveryPosition(t, r)
 	valueSets := [][]int64{{12, 3, 2, 6}, {7, 2, 5, 1}, {20, 4, 2, 3}, {0, 1, 4, 2}}
 	for _, o1 := range c08TripleOps {
 		for _, o2 := range c08TripleOps {
